@@ -22,6 +22,9 @@ func decodeAmmo(cfg *config.AmmoConfig, storage *vs.SourceStorage) ([]*gun.Scena
 
 	scenarioRegistry := map[string]config.ScenarioConfig{}
 	for _, sc := range cfg.Scenarios {
+		if sc.Weight < 0 {
+			return nil, fmt.Errorf("scenario %s: weight %d is negative", sc.Name, sc.Weight)
+		}
 		scenarioRegistry[sc.Name] = sc
 	}
 
